@@ -30,6 +30,32 @@ class SLock:
     def __init__(self):
         self.real = _thread.allocate_lock()
         self.owner = None
+        # creating a lock is a schedule point too: a lazily created lock (created on first use instead of
+        # in __init__) can be created twice by two threads that then exclude nobody
+        s = SCHED
+        if s is not None and s.managed():
+            # monitor: one lock per (object, creation site).  A second lock created at the same source
+            # line for the same `self` by another thread means the lock is created lazily and two threads
+            # raced through its creation: from then on they exclude nobody.  (The owner object is kept
+            # alive in the table, so its id cannot be reused within the schedule.)
+            try:
+                f = sys._getframe(1)
+                while f is not None and not f.f_code.co_filename.startswith(env.LIB_DIR):
+                    f = f.f_back
+                if f is not None and 'self' in f.f_locals:
+                    owner = f.f_locals['self']
+                    key = (id(owner), f.f_code.co_filename, f.f_lineno)
+                    tab = s.__dict__.setdefault('lock_sites', {})
+                    ent = tab.get(key)
+                    me = _thread.get_ident()
+                    if ent is None:
+                        tab[key] = [owner, me]
+                    elif ent[1] != me and not getattr(s, 'double_lock', None):
+                        s.double_lock = {'class': type(owner).__name__, 'file': os.path.basename(key[1]),
+                                         'line': key[2]}
+            except Exception:
+                pass
+            s.yield_point(('lock.create', 0))
 
     def acquire(self, blocking=True, timeout=-1):
         s = SCHED
@@ -267,6 +293,7 @@ class Scheduler:
         if not ready.wait(5):
             raise RuntimeError('forked thread did not start')
         self._forked = getattr(self, '_forked', []) + [t]
+        self.fork_steps = getattr(self, 'fork_steps', []) + [self.step]
         self.yield_point(('fork', idx))
         return t
 
@@ -329,6 +356,11 @@ class Scheduler:
             return
         me = self.me()
         self.step += 1
+        if isinstance(tag[0], str) and tag[0].startswith('lock.'):
+            # synchronisation operations are where a pre-emption matters most: remember them
+            lt = self.__dict__.setdefault('lock_trace', [])
+            if len(lt) < 4000:
+                lt.append((self.step, self.threads.get(me, {}).get('idx'), tag[0]))
         k = self.strategy.get('kind')
         target = None
         if k == 'preempt':
